@@ -18,7 +18,7 @@ def worker(slot):
         extra = parts[2:]  # further properties to check
         lk = locks.setdefault(prop, threading.Lock())
         with lk:
-            p = subprocess.run(['/verif/lib/try4.sh', prop, k, slot] + ([prop] + extra if extra else []), capture_output=True, text=True)
+            p = subprocess.run([os.environ.get('VROOT','/verif')+'/lib/try4.sh', prop, k, slot] + ([prop] + extra if extra else []), capture_output=True, text=True)
         open('/tmp/r4/results/%s_%s.txt' % (prop, k), 'w').write(p.stdout + p.stderr)
         print('==', j); print(p.stdout.strip()); sys.stdout.flush()
 ts = [threading.Thread(target=worker, args=(s,)) for s in 'abc']
